@@ -725,3 +725,60 @@ func famExtrasMap(kvs []vgirpc.KV) map[string]string {
 	}
 	return m
 }
+
+// ---------------------------------------------------------------- generator helpers
+
+var famLevels = []string{"EXCEPTION", "ERROR", "WARN", "INFO", "DEBUG", "TRACE"}
+
+func famRandText(r *Rng) string {
+	switch r.Intn(9) {
+	case 0:
+		return ""
+	case 1:
+		return "hello world"
+	case 2:
+		return "ünï-çødé ✓ 日本"
+	case 3:
+		return `quote " back\slash <tag> & {json:"x"}`
+	case 4:
+		return strings.Repeat("long-", r.Range(20, 80))
+	case 5:
+		return "line1\nline2\ttab"
+	case 6:
+		return "x" + strconv.Itoa(r.Intn(1000))
+	case 7:
+		return string(rune(0x1F600+r.Intn(40))) + " emoji"
+	default:
+		n := r.Range(1, 12)
+		b := make([]byte, n)
+		for i := range b {
+			b[i] = byte(0x20 + r.Intn(0x5f))
+		}
+		return string(b)
+	}
+}
+
+func famRandLevel(r *Rng) string {
+	switch x := r.Intn(100); {
+	case x < 80:
+		return Pick(r, famLevels)
+	case x < 85:
+		return ""
+	case x < 90:
+		return strings.ToLower(Pick(r, famLevels))
+	case x < 94:
+		return "VERBOSE"
+	case x < 97:
+		return Pick(r, famLevels) + " "
+	default:
+		return famRandText(r)
+	}
+}
+
+// panicText is fmt.Sprint of the value the scripted handler panics with.
+func (o famOutcome) panicText() string {
+	if o.Sub == "int" {
+		return strconv.Itoa(o.Int)
+	}
+	return o.Msg
+}
